@@ -85,7 +85,7 @@ def load_known():
 
 def match_known(known, prop_id, bucket):
     for e in known:
-        if e["property"] == prop_id and e["bucket"] == bucket:
+        if e["property"] == prop_id and (e.get("bucket") == bucket or bucket in e.get("buckets", [])):
             return e
     return None
 
